@@ -188,6 +188,13 @@ class IntWhenWhole(object):
 
 def pair_potentials_api(model, wrap=None):
   """Potential objects built through the Python API from a pair model spec."""
+  if model.get("api_refit"):
+    # the SAME Potential / function objects serve the throw-away write and the real one (see Refit)
+    if id(model) not in REFIT["objs"]:
+      m2 = dict(model)
+      m2.pop("api_refit")
+      REFIT["objs"][id(model)] = pair_potentials_api(m2, (lambda f, tag: Refit(wrap(f, tag))) if wrap else (lambda f, tag: Refit(f)))
+    return list(REFIT["objs"][id(model)])
   from atsim.potentials import Potential
   import json
   pots = []
